@@ -988,8 +988,8 @@ func ruleReaderShutdown(c *Check, p *Program, rule string) {
 	// helper) and the one that receives the per-block channels from the queue (a channel of channels)
 	var readerLoop, collector *ssa.Function
 	for _, fn := range goroutinesOf(ir) {
-		if fn.Parent() != ir && fn.Parent() != nil {
-			continue // per-block workers started inside the reader goroutine
+		if fn.Parent() != nil && fn.Parent().Parent() != nil {
+			continue // per-block workers started inside the reader goroutine (a function literal inside a function literal)
 		}
 		for _, ci := range callsInDeep(fn) {
 			if calleeIs(ci, pkgStream, "FrameDataBlock.Read") {
